@@ -946,6 +946,9 @@ def oracle_range(pid, sc, ob):
             a, b, l2 = int(m.group(1)), int(m.group(2)), int(m.group(3))
             if not (a <= b < l2 and l2 == L):
                 return "Content-Range %r violates a <= b < L = %d" % (cr, L)
+            cl = hd.get("content-length", [None])[0]
+            if cl is not None and int(cl) != b - a + 1:
+                return "206 announces Content-Range %s (%d bytes) but Content-Length %s: the body cannot be the bytes the header names" % (cr.decode(), b - a + 1, cl.decode())
         return None
     return None
 
@@ -994,6 +997,11 @@ def fam_range_headers():
                   "0-1,99999999999999999999-", "18446744073709551615-", "-18446744073709551615", "0-18446744073709551615", "1-2 ", " 1-2", "1-2 , ", "1-2, ,3-4", "1 -2", "1- 2"):
             k += 1
             out.append({"id": "rg%d" % k, "method": "GET", "headers": [("range", "bytes=" + v)], "len": L, "etag": '"x"', "lm": "1000000000.0", "scripts": [], "extra_polls": 0})
+    # very large entities and ranges, judged on the headers alone (HEAD: nothing is read): sizes around 2^16, 2^26, 2^32, 2^40
+    for L in (2 ** 40, 2 ** 33 + 5):
+        for v in ("1000-", "5-80000004", "4096-67112960", "0-4294967295", "8-4294967303", "1-4294967296", "-4294967296", "-70000000", "0-67108863", "0-67108864", "%d-" % (L - 2 ** 32), "%d-%d" % (L - 2 ** 26 - 1, L - 1)):
+            k += 1
+            out.append({"id": "rg%d" % k, "method": "HEAD", "headers": [("range", "bytes=" + v)], "len": L, "etag": '"x"', "lm": "1000000000.0", "scripts": [], "extra_polls": 0})
     # values that are not range requests at all (short, other units, other case, stray whitespace, empty list elements)
     for v in ("", "b", "byte", "bytes", "bytes=", "0-1", "-5", "none", "=", "bytes =0-1", "Bytes=0-1", "BYTES=0-1", "bytes=0-1,", "bytes=,0-1", "bytes=0-1,,2-3",
               "bytes=0-1 ", " bytes=0-1", "bytes=0 - 1", "bytes=-", "bytes=--1", "bytes=1--2", "bytes=a-b", "bytes=0x1-2", "bytes=+1-2", "bytes=1-2;q=1", "items=0-1", "bytes"):
@@ -1290,7 +1298,16 @@ def _c14(sc, ob):
         if hd["last-modified"] != [http_date(int(lm.split(".")[0])).encode()]:
             return "Last-Modified %r is not the modification time truncated to the second" % hd["last-modified"]
     ehs = [k for k, _ in sc.get("entity_headers", [])]
-    has = all(k in hd for k in ehs)
+    def _every_value_there():
+        # "every header the entity supplies": each supplied (name, value), counted with multiplicity
+        for k2 in set(ehs):
+            want = sorted((v if isinstance(v, bytes) else v.encode("latin1")) for kk, v in sc.get("entity_headers", []) if kk == k2)
+            got = sorted(hd.get(k2, []))
+            for v in set(want):
+                if got.count(v) < want.count(v):
+                    return False
+        return True
+    has = all(k in hd for k in ehs) and _every_value_there()
     none = not any(k in hd for k in ehs)
     if ehs:
         if st == 200 and not has:
